@@ -41,3 +41,9 @@ for _n, _tier in ((5, "quick"), (7, "thorough")):
       cbmc_flags=["--unwind", str(_n + 3), "--unwinding-assertions"], timeout=900, cost=60,
       functions=["mmd_assign_ambidextrous_tokens_in_block"], callees={"char_is_*": "body (real table)", "token_new/tokens_prune": "body (DISABLE_OBJECT_POOL)"},
       native={"repo": "ALL", "ldflags": ["-lm"]}, assumptions=[NOFAIL, "tokens lie inside the NUL-terminated source (lexer contract, assumed)"])
+
+# token_pair_engine_add_pairing itself: symbolic indices into the 230x230 table do not get through the SAT solver
+# (DFCC and plain both > 5 min); its safety rests on the requires "types < kMaxTokenTypes" = the C15 enum obligations.
+U("c01_pair_engine_new", ["C01"], "h_engine_new", ["C01/pairs.c"], ["token_pairs.c"], plain=True, lib=(), kind="finite",
+  cbmc_flags=["--unwind", "3", "--unwinding-assertions", "--memory-leak-check"], functions=["token_pair_engine_new", "token_pair_engine_free"],
+  native={"repo": ["token_pairs.c", "token.c", "stack.c", "object_pool.c", "char.c"]}, callees={"memcpy": "CBMC built-in"}, assumptions=[NOFAIL])
